@@ -850,8 +850,11 @@ def r17_slot_cover(ctx):
             for s, nodes in aug.items():
                 for n in nodes:
                     v = n.value
+                    other_ = f.params[1] if len(f.params) > 1 else None
                     if not (isinstance(v, ast.Attribute) and v.attr == s and
-                            isinstance(n.op, ast.Add)):
+                            isinstance(n.op, ast.Add) and isinstance(
+                                v.value, ast.Name) and
+                            v.value.id == other_):
                         bad.append(U(n))
             rep.check(not bad, rule, ctx.fkey(f, None, "slot-to-slot"),
                       f.loc(), "each slot receives the same slot of the "
